@@ -277,8 +277,23 @@ func (fr *Frame) havocReachable(v *Value) {
 				fr.havocReachable(pv)
 			}
 		} else if _, ok := litVal(v.C[0]); !ok {
-			// unknown dynamic type: any object may be written
-			x.havocAll(st)
+			// unknown dynamic type: the object behind the interface may change, whatever its type
+			impl := e.implementers(u)
+			for _, key := range sortedKeys(e.heapSorts) {
+				if !strings.HasPrefix(key, "H:") {
+					continue
+				}
+				if j := strings.LastIndex(key, "#"); j < 0 || !impl[key[2:j]] {
+					continue
+				}
+				srt := e.heapSorts[key]
+				h := x.heapGet(st, key)
+				nv := x.ctx.Fresh("hvobj", ElemSort(srt))
+				if cp, ok := e.heapComps[key]; ok && cp.Kind == "int" && cp.Lo != nil {
+					x.ctx.Assume(And(Le(BigLit(cp.Lo), nv), Le(nv, BigLit(cp.Hi))))
+				}
+				x.heapSetAt(st, key, x.ctx.Name("H", Store(h, v.C[1], nv)), v.C[1])
+			}
 		}
 	case *types.Struct:
 		// struct passed by value: fields that are pointers/slices
@@ -293,6 +308,35 @@ func (fr *Frame) havocReachable(v *Value) {
 			off += n
 		}
 	}
+}
+
+// implementers: named struct types of the program whose (pointer) method set implements iface.
+func (e *Engine) implementers(iface *types.Interface) map[string]bool {
+	k := "impl|" + iface.String()
+	if m, ok := e.implCache[k]; ok {
+		return m
+	}
+	m := map[string]bool{}
+	for _, p := range e.prog.AllPackages() {
+		for _, name := range p.Pkg.Scope().Names() {
+			tn, ok := p.Pkg.Scope().Lookup(name).(*types.TypeName)
+			if !ok || tn.IsAlias() {
+				continue
+			}
+			t := tn.Type()
+			if _, isI := t.Underlying().(*types.Interface); isI {
+				continue
+			}
+			if nt, ok := t.(*types.Named); ok && nt.TypeParams().Len() > 0 {
+				continue
+			}
+			if types.Implements(t, iface) || types.Implements(types.NewPointer(t), iface) {
+				m[typeKey(t)] = true
+			}
+		}
+	}
+	e.implCache[k] = m
+	return m
 }
 
 func isStreamIface(u *types.Interface) bool {
